@@ -640,7 +640,7 @@ def value_vectors(ctx, case, idx, tier):
     sw = scalar_width(case)
     allw = widths + ([sw] if sw else [])
     total = sum(allw)
-    limit = 12 if tier == 'thorough' else 8
+    limit = 12 if (tier == 'thorough' and case['tag'] == 'tiny') else 8
     if total <= limit:
         return [tuple(t) for t in itertools.product(*[range(1 << w) for w in allw])], True
     rng = ctx.sub_rng('values', idx, case['op'])
